@@ -23,7 +23,7 @@ CONFIG = {
             "simulator's RNG); unlimited run recorded at the print_guess seam and at the stdout seam; then --limit N for N at "
             "pre-terminal boundaries +-1, inside a group, inside a Markov level, 1, total, total+1; 1 in 4 runs inject a failing "
             "save-file open (EACCES/ENOSPC/EROFS), 1 in 4 run the real keyboard thread with status/help requests under the scheduler; "
-            "thorough adds --load --limit across a quit inside a Markov level; oracle: stdout text == guesses joined by LF, and "
+            "1 in 3 quick runs and all thorough runs add quit (pop / inside a Markov level) then --load --limit N against --load without limit from the same saved state; oracle: stdout text == guesses joined by LF, and "
             "stdout(N) == first min(N,total) lines of the unlimited run; non-trivial = some N falls strictly inside a pre-terminal "
             "or Markov level, or a fault/thread was active; distinct = distinct (ruleset, flags, mode, N list)",
     "components": {
